@@ -496,7 +496,7 @@ func runParent(c *Ctx) int {
 	defer os.RemoveAll(work)
 	dl := spec.QuickDeadline
 	if dl == 0 {
-		dl = 8 * time.Minute
+		dl = 12 * time.Minute
 	}
 	if c.Thorough {
 		dl = spec.ThoroughDeadline
